@@ -18,7 +18,8 @@ EXPLANATION = (
     "(R4) the 28 data series and the guards under which they are touched (is_detached, is_unmapped, "
     "quality_scores_are_stored_as_array, alignment_starts_are_deltas, records_have_names) are used by functions of the same "
     "stem in the slice reader and the slice writer; (R5) record counter advanced only by flush with records.len()."
-    " (R6) append-buffer discipline for the CRAM header text reader and the name tokenizer's token reader.")
+    " (R6) append-buffer discipline for the CRAM header text reader and the name tokenizer's token reader."
+    " R5 also decides, for the sync and the async flush, that the len() feeding `record_counter +=` is taken from the very collection (normalised place identity) that was handed to write_container.")
 ASSUMPTIONS = ["flate2 Crc/CrcReader/CrcWriter compute CRC32 of exactly the bytes passed through", "md5 crate",
                "function-stem pairing (read_x <-> write_x) reflects the symmetric structure of the two record codecs (floor-checked)"]
 NOT_DECIDED = ["record equality: feature/CIGAR/base reconstruction, mate resolution, every encoder option x codec",
@@ -227,6 +228,35 @@ def run(ctx):
         K + "io::writer::Writer::<W>::flush": "+= records.len()",
         K + "io::writer::builder::Builder::build_from_writer": "constructor (0)",
     }, "record counter written only by flush()")
+
+    # the amount added is the length of the very collection that was handed to write_container (sync and async flush)
+    is_len = R.mk_pred(r"Vec::<T, A>::len$")
+    nfl = 0
+    for key in (K + "io::writer::Writer::<W>::flush", K + "r#async::io::writer::Writer::<W>::flush"):
+        f = ctx.body("C07.R5", key)
+        if f is None:
+            continue
+        nfl += 1
+        bd = a10.Body(fb, f)
+        wc = [c for b, c in f.calls() if re.search(r"writer::container::write_container$", c.get("f") or "") and len(c["args"]) >= 5]
+        adds = [st for blk in f.blocks if not blk.get("cu") for st in blk["s"]
+                if st[0] == "=" and st[2][0] == "bin" and st[2][1].startswith("Add")
+                and any(n == "record_counter" for n, _o in C.place_fields(C.op_place(st[2][2]) or [0, []]))]
+        lens = [c for b, c in f.calls() if is_len(c.get("f") or "") and any(R.derives_from_local(f, a[2][3], c["dest"][0], through_calls=True) for a in adds)]
+        if not wc or not adds or not lens:
+            ctx.violation("C07.R5", "C07.R5/ANCHOR-MISSING/%s/shape" % key,
+                          "%s: write_container call (%d), record_counter += (%d) or the len() feeding it (%d) not found" % (key, len(wc), len(adds), len(lens)), f.loc())
+            continue
+        written = bd.pointee(wc[0]["args"][-1])
+        counted = {bd.pointee(c["args"][0]) for c in lens}
+        if counted == {written}:
+            ctx.ok("C07.R5", key + " :: record_counter += len of the collection handed to write_container", a10.fmt_ident(f, written), f.loc())
+        else:
+            ctx.violation("C07.R5", "C07.R5/counter-from-other-collection/" + key,
+                          "%s advances record_counter by the length of %s while write_container was handed %s: the counter of every later "
+                          "container and slice is wrong (read names generated from it collide)" % (
+                              key, sorted(a10.fmt_ident(f, x) for x in counted if x), a10.fmt_ident(f, written) if written else "?"), f.loc())
+    ctx.floor("C07.R5", "CRAM writer flush() bodies (sync + async)", nfl, 2)
 
 
 def _writes_static(key):
